@@ -25,7 +25,9 @@ Definition of_res {T} (f : T -> sexp) (r : res T) : sexp :=
   match r with Ok a => L [A 0; f a] | Err e => L [A e] end.
 
 Definition of_frag (f : frag) : sexp :=
-  L [of_str (f_re f); A (f_min f); of_opt A (f_max f); of_bool (f_fixed f)].
+  L [match f_atom f with
+     | ALit s => L [A 0; of_str s] | ARaw c => L [A 1; A c] | AClass c => L [A 2; A c] | ABracket cs => L [A 3; of_str cs]
+     end; A (f_min f); of_opt A (f_max f); of_bool (f_fixed f)].
 
 (* (opts items groups matches samples) -> (0 (none rex strings freqs passes samples_left last_failures)) | (err) *)
 Definition rexpy_entry (s : sexp) : sexp :=
